@@ -16,7 +16,9 @@ func FuzzC08Server(f *testing.F) {
 	f.Add([]byte{9, 8, 7, 6, 5, 4, 3, 2, 1, 0, 1, 2, 3, 4, 5, 6, 7, 8, 9, 10, 11, 12})
 	f.Fuzz(rapid.MakeFuzz(func(rt *rapid.T) {
 		var r Req
-		switch rapid.SampledFrom([]string{"livesim2", "livesim2", "livesim2", "unknown", "other", "other"}).Draw(rt, "kind") {
+		switch rapid.SampledFrom([]string{"livesim2", "livesim2", "livesim2", "unknown", "other", "other", "ll-boundary"}).Draw(rt, "kind") {
+		case "ll-boundary":
+			r = genLLBoundary(rt)
 		case "livesim2":
 			r = genLivesim(rt)
 		case "unknown":
